@@ -220,6 +220,53 @@ def _hyp_settings(n, phases):
     )
 
 
+CRASH = "worker-process-died"
+
+
+def crashed_unit(args):
+    """result of a unit whose worker process died (interpreter crash inside the code under test, e.g. a segfault in a
+    compiled solver fed by it): reported as a deviation of its own, the run goes on"""
+    prop, fi, ai, shard, n, tier, seedint, deadline = args
+    out = dict(fi=fi, ai=ai, shard=shard, evaluations=0, nontrivial=[], labels={}, meas={}, devs={},
+               rejected=0, skipped=False, error=None, samples=[], wall=0.0, budget_hit=False)
+    out["devs"][CRASH] = [dict(case={"unit": [prop, fi, ai, shard, n, tier, seedint]}, value=1.0, tol=0.5,
+                               info="the worker process running this unit died twice (alone in a fresh process the second time)")]
+    return out
+
+
+def safe_map(fn, items, jobs, ctx, on_crash, ordered=False):
+    """map over a process pool that survives dying workers: items whose future breaks are re-run one by one in fresh
+    single-worker pools; an item that kills its worker again yields on_crash(item). (multiprocessing.Pool hangs forever
+    when a worker dies while it holds a task.)"""
+    from concurrent.futures import ProcessPoolExecutor, as_completed
+    from concurrent.futures.process import BrokenProcessPool
+
+    items = list(items)
+    res = [None] * len(items)
+    done = [False] * len(items)
+    try:
+        with ProcessPoolExecutor(max(1, min(jobs, len(items) or 1)), mp_context=ctx) as ex:
+            futs = {ex.submit(fn, it): i for i, it in enumerate(items)}
+            for f in as_completed(futs):
+                i = futs[f]
+                try:
+                    res[i] = f.result()
+                    done[i] = True
+                except BrokenProcessPool:
+                    pass
+    except BrokenProcessPool:
+        pass
+    for i, it in enumerate(items):
+        if done[i]:
+            continue
+        try:
+            with ProcessPoolExecutor(1, mp_context=ctx) as ex:
+                res[i] = ex.submit(fn, it).result()
+        except BrokenProcessPool:
+            res[i] = on_crash(it)
+    return res if ordered else [r for r in res]
+
+
 def run_unit(args):
     """one work unit = (family, axis value, shard): survey mode, never raises on deviations."""
     prop, fi, ai, shard, n, tier, seedint, deadline = args
@@ -401,9 +448,7 @@ def run_property(prop, tier, seed, jobs=None, only_family=None):
         for u in units:
             results.append(run_unit(u))
     else:
-        with ctx.Pool(jobs) as pool:
-            for r in pool.imap_unordered(run_unit, units, chunksize=1):
-                results.append(r)
+        results = safe_map(run_unit, units, jobs, ctx, crashed_unit)
 
     errors = [r["error"] for r in results if r["error"]]
     evaluations = sum(r["evaluations"] for r in results)
@@ -482,8 +527,9 @@ def run_property(prop, tier, seed, jobs=None, only_family=None):
         shr = {}
         lim = 8 if tier == "quick" else 24
         if todo:
-            with ctx.Pool(min(16, len(todo[:lim]))) as pool:
-                for (b, e, first, a), r in zip(todo[:lim], pool.map(shrink_unit, [t[3] for t in todo[:lim]])):
+            sel = [t for t in todo[:lim] if not t[1]["name"].startswith(CRASH)]
+            for (b, e, first, a), r in zip(sel, safe_map(shrink_unit, [t[3] for t in sel], min(16, max(1, len(sel))), ctx, lambda a_: None, ordered=True)):
+                if r is not None:
                     shr[b] = r
         new_dir = os.path.join(os.environ["VF_REPLAY_DIR"], prop) if os.environ.get("VF_REPLAY_DIR") else replay_dir
         os.makedirs(new_dir, exist_ok=True)
